@@ -225,6 +225,43 @@ def concrete_search(c, fn):
     return None
 
 
+def concrete_search_kind(c, kind):
+    """small closed trees of one node kind: every field filled from a handful of atoms / operators"""
+    import itertools
+    from vc.deffun import eval_closed_term
+    from vc.speclib import SHAPE
+    U, PV = c["U"], c["PV"]
+    ident = lambda n: U.node("Identifier", U.strv(n), U.tuplev(z3.Empty(U.Seq)))
+    length = U.node("Call", ident("length"), PV.ListV(U.seq([ident("f")])))
+    atoms = [ident("f"), U.node("String", U.strv("s")), U.node("Integer", U.strv("1")), U.node("Float", U.strv("1.5")),
+             U.node("Boolean", U.strv("true")), length, U.node("Date", U.strv("2020-01-02")), U.node("Duration", U.strv("P1D"))]
+
+    def options(spec):
+        if spec == "expr":
+            return atoms
+        if spec == "str":
+            return [U.strv("s")]
+        if spec == "strs":
+            return [U.tuplev(z3.Empty(U.Seq))]
+        if spec in ("exprs", "args"):
+            return [PV.ListV(U.seq([a])) for a in atoms[:3]] + [PV.ListV(U.seq([atoms[2], atoms[3]]))]
+        if spec[0] == "kind":
+            return [U.node(k) if not SHAPE[k] else (ident("f") if k == "Identifier" else None) for k in spec[1]]
+        if spec[0] == "opt":
+            return [U.none()] + [o for o in options(spec[1]) if o is not None]
+        return []
+    fields = [[o for o in options(sp) if o is not None] for sp in SHAPE[kind].values()]
+    if any(not f for f in fields):
+        return None
+    for combo in itertools.islice(itertools.product(*fields), 2000):
+        node = U.node(kind, *combo)
+        ok = eval_closed_term(z3.And(c["wt"](node), z3.Not(sound(c, node))))
+        if z3.is_true(ok):
+            return {"e": U.decode(node), "inferred": U.decode(eval_closed_term(c["itype"](node))),
+                    "odata_type": U.decode(eval_closed_term(c["otype"](node)))}
+    return None
+
+
 def sound(c, t):
     """itype(t) is unknown or the OData type"""
     U = c["U"]
@@ -302,8 +339,17 @@ def run_family(facts, fam, tier):
         src = src_of(f_ret if kind == "Call" else f_inf)
         wt_terms = {"e": node, "inferred": c["itype"](node), "odata_type": c["otype"](node)}
         if kind != "Call":
-            return [judge(E, f"C18:odata_query.typing.infer_type[{kind}]:lemma.sound", "lemma.sound", hyps, sound(c, node),
-                          src, timeout, wt_terms)]
+            r = judge(E, f"C18:odata_query.typing.infer_type[{kind}]:lemma.sound", "lemma.sound", hyps, sound(c, node),
+                      src, timeout, wt_terms)
+            if r["status"] == "undecided":
+                # as for calls: a small concrete counterexample by closed evaluation (a model finder, not a proof)
+                w = concrete_search_kind(c, kind)
+                if w is not None:
+                    r["status"] = "refuted"
+                    r["reason"] = "concrete counterexample found by closed evaluation after solver timeout"
+                    r["witness"] = w
+                    r["solver_output"] = "closed evaluation: itype != otype on " + str(w.get("e"))[:300]
+            return [r]
         # one obligation per function name of the OData table (+ every other name / namespace): smaller queries,
         # and a counter-model names the function
         func = consts[0]
